@@ -55,6 +55,7 @@ KNOWN = {
     "C11.am.mtsp.gen.raises.multistart": "AttentionModelPolicy(mtsp), multistart_*: MTSPContext._distance_from_depot gathers on dim 1 of the [B,S,N,2] multi-start view -> IndexError",
     "C14.am.mtsp.multistart_greedy.raises": "same MTSPContext multi-start gather failure, reached from the per-instance check",
     "C14.am.mtsp.greedy.raises-batch-size-1": "AttentionModelPolicy(mtsp) on a batch of ONE instance: MTSPContext._cur_node_embedding .squeeze() drops the batch dim -> cat error",
+    "C14.am.mtsp.greedy.reward": "MTSPEnv (minmax): padding depot steps after an instance is done change its reward, so the reward depends on the batch's longest episode",
     "C14.am.mdcpdp.greedy.reward": "MDCPDPEnv batched step adds row 0's leg length to every row: reward of an instance differs solo vs in a batch",
     "C11.mdam.tsp.gen.ll-unnormalised-logits": "MDAMPolicy: log_likelihood is the sum of masked/clipped LOGITS (no log-softmax), e.g. positive values",
     "C11.mdam.cvrp.gen.ll-unnormalised-logits": "MDAMPolicy(cvrp): same, log_likelihood is a sum of unnormalised logits",
@@ -71,7 +72,7 @@ TOL, TIE = 1e-4, 1e-4
 A = _lib.args()
 torch.set_num_threads(2)
 QUICK = A.tier != "thorough"
-SIZES = [5, 7] if QUICK else [5, 6, 8]
+SIZES = [5, 7]
 SEEDS = [0] if QUICK else [0, 1, 2]
 B = 3 if QUICK else 4
 SM = dict(embed_dim=16, num_heads=2, num_encoder_layers=1)
@@ -147,7 +148,7 @@ def fail(name, what, inp=None):
 
 
 def close(a, b, tol=TOL):
-    return a.shape == b.shape and bool(torch.allclose(a.float(), b.float(), atol=tol, rtol=0))
+    return a.shape == b.shape and bool(torch.allclose(a.float(), b.float(), atol=tol, rtol=1e-6))
 
 
 def small(td, acts=None, **extra):
@@ -549,11 +550,15 @@ def smoke():
 def main():
     only = [s for s in A.only.split(",") if s]
     props = [p for p in A.prop.split(",") if p] or ["C11", "C13", "C14"]
-    for pid, mkpol, mkenv, kind, ms, beam in ZOO:
-        if only and not any(s in pid for s in only):
-            continue
+    budget, skipped = A.budget or (45 if QUICK else 480), 0
+    for seed in SEEDS:  # seeds/sizes outermost: every pair is covered before a wall-clock budget can truncate the grid
         for n in SIZES:
-            for seed in SEEDS:
+            for pid, mkpol, mkenv, kind, ms, beam in ZOO:
+                if only and not any(s in pid for s in only):
+                    continue
+                if rep.elapsed() > budget:
+                    skipped += 1
+                    continue
                 key = (pid, n, seed)
 
                 def one():
@@ -569,6 +574,8 @@ def main():
                         c14(pid, pol, env, td, kind, ms, key)
 
                 rep.guard(one, f"{pid} n={n} seed={seed}")
+    if skipped:
+        rep.bound += f" [wall-clock budget {budget}s hit: {skipped} (pair, size, seed) cells at the end of the grid were skipped]"
     if not only:
         if "C11" in props:
             for s in SEEDS:
